@@ -20,6 +20,10 @@ use crate::core::Injected;
 pub enum Fault {
     /// The call fails with no effect.
     Err,
+    /// The call fails with no effect and an error of this kind (`Interrupted`, `WouldBlock`, `TimedOut` ...): what a
+    /// caller does with a failed call must not depend on how the failure is labelled, unless it retries - and then it
+    /// must not give up by reporting success
+    ErrOfKind(io::ErrorKind),
     /// `write` returns `Interrupted` once (legal; callers must retry).
     Eintr,
     /// `write` appends `num/den` of the buffer (at least 1 byte, fewer than all) and returns `Ok(k)`.
@@ -39,6 +43,7 @@ impl Fault {
         match self {
             Fault::Err => "io_error",
             Fault::Eintr => "eintr",
+            Fault::ErrOfKind(_) => "io_error_of_unusual_kind",
             Fault::ShortWrite(..) => "short_write",
             Fault::WriteZero => "write_zero",
             Fault::TornWrite(..) => "torn_write",
@@ -100,6 +105,8 @@ pub struct FsState {
     pub dead: bool,
     /// foreign directory entries whose names are not valid UTF-8: (directory, raw name bytes); only ever listed
     pub raw_entries: Vec<(String, Vec<u8>)>,
+    /// the kind of the error the failing call in progress returns, if not the usual one for its operation
+    pub next_err_kind: Option<io::ErrorKind>,
 }
 
 pub fn norm(path: &Path) -> String {
@@ -167,6 +174,7 @@ impl SimFs {
                 fired: Vec::new(),
                 dead: false,
                 raw_entries: Vec::new(),
+                next_err_kind: None,
             })),
             on_op: None,
             fault_fn: None,
@@ -227,6 +235,10 @@ impl SimFs {
                     st.fired.push((index, f.kind(), kind.clone()));
                     match f {
                         Fault::Err => Decision::Fail,
+                        Fault::ErrOfKind(k) => {
+                            st.next_err_kind = Some(k);
+                            Decision::Fail
+                        }
                         Fault::CrashBefore => {
                             st.dead = true;
                             st.log.push(OpRec {
@@ -263,6 +275,13 @@ impl SimFs {
             drop(st);
             panic::panic_any(Injected("crash"));
         }
+    }
+
+    fn err_for(&self, kind: &OpKind) -> io::Error {
+        if let Some(k) = self.lock().next_err_kind.take() {
+            return io::Error::new(k, "injected fault");
+        }
+        Self::err(kind)
     }
 
     fn err(kind: &OpKind) -> io::Error {
@@ -350,7 +369,7 @@ impl SimFilesystem for SimFs {
         match d {
             Decision::Fail => {
                 self.end(index, OpKind::CreateDirAll, &p, false, 0, Some("io_error"), false);
-                Err(Self::err(&OpKind::CreateDirAll))
+                Err(self.err_for(&OpKind::CreateDirAll))
             }
             d => {
                 self.lock().dirs.insert(p.clone());
@@ -367,7 +386,7 @@ impl SimFilesystem for SimFs {
         match d {
             Decision::Fail => {
                 self.end(index, OpKind::SyncParent, &p, false, 0, Some("io_error"), false);
-                Err(Self::err(&OpKind::SyncParent))
+                Err(self.err_for(&OpKind::SyncParent))
             }
             // what `StdFilesystem::sync_parent` does: open `path.parent()` and sync it; a bare file name has the
             // parent "", which cannot be opened
@@ -403,7 +422,7 @@ impl SimFilesystem for SimFs {
         match d {
             Decision::Fail => {
                 self.end(index, OpKind::ReadDir, &p, false, 0, Some("io_error"), false);
-                Err(Self::err(&OpKind::ReadDir))
+                Err(self.err_for(&OpKind::ReadDir))
             }
             _ if enoent_if_empty(path).is_err() => {
                 self.end(index, OpKind::ReadDir, &p, false, 0, None, false);
@@ -442,7 +461,7 @@ impl SimFilesystem for SimFs {
         match d {
             Decision::Fail => {
                 self.end(index, OpKind::Remove, &p, false, 0, Some("io_error"), false);
-                Err(Self::err(&OpKind::Remove))
+                Err(self.err_for(&OpKind::Remove))
             }
             d => {
                 let removed = {
@@ -474,7 +493,7 @@ impl SimFilesystem for SimFs {
         match d {
             Decision::Fail => {
                 self.end(index, OpKind::OpenNew, &p, false, 0, Some("io_error"), false);
-                Err(Self::err(&OpKind::OpenNew))
+                Err(self.err_for(&OpKind::OpenNew))
             }
             d => {
                 let r = {
@@ -518,7 +537,7 @@ impl SimFilesystem for SimFs {
         match d {
             Decision::Fail => {
                 self.end(index, OpKind::OpenExisting, &p, false, 0, Some("io_error"), false);
-                Err(Self::err(&OpKind::OpenExisting))
+                Err(self.err_for(&OpKind::OpenExisting))
             }
             d => {
                 let r = {
@@ -580,7 +599,7 @@ impl SimFile for Handle {
                 // nothing written, but the record being written is interrupted here
                 append(0, true);
                 self.fs.end(index, OpKind::Write, &self.path, false, 0, Some("io_error"), false);
-                Err(SimFs::err(&OpKind::Write))
+                Err(self.fs.err_for(&OpKind::Write))
             }
             Decision::Fault(Fault::Eintr) => {
                 self.fs.end(index, OpKind::Write, &self.path, false, 0, Some("eintr"), false);
@@ -607,7 +626,7 @@ impl SimFile for Handle {
                 let k = part(buf.len(), num, den);
                 append(k, true);
                 self.fs.end(index, OpKind::Write, &self.path, false, k, Some("torn_write"), false);
-                Err(SimFs::err(&OpKind::Write))
+                Err(self.fs.err_for(&OpKind::Write))
             }
             Decision::Fault(Fault::CrashMid(num, den)) => {
                 let k = part(buf.len(), num, den);
@@ -624,7 +643,7 @@ impl SimFile for Handle {
         match d {
             Decision::Fail => {
                 self.fs.end(index, OpKind::Flush, &self.path, false, 0, Some("io_error"), false);
-                Err(SimFs::err(&OpKind::Flush))
+                Err(self.fs.err_for(&OpKind::Flush))
             }
             d => {
                 let crash = matches!(d, Decision::Fault(Fault::CrashAfter));
@@ -639,7 +658,7 @@ impl SimFile for Handle {
         match d {
             Decision::Fail => {
                 self.fs.end(index, OpKind::Len, &self.path, false, 0, Some("io_error"), false);
-                Err(SimFs::err(&OpKind::Len))
+                Err(self.fs.err_for(&OpKind::Len))
             }
             d => {
                 let l = self.fs.lock().inodes[self.ino].data.len();
@@ -655,7 +674,7 @@ impl SimFile for Handle {
         match d {
             Decision::Fail => {
                 self.fs.end(index, OpKind::SyncAll, &self.path, false, 0, Some("io_error"), false);
-                Err(SimFs::err(&OpKind::SyncAll))
+                Err(self.fs.err_for(&OpKind::SyncAll))
             }
             d => {
                 {
